@@ -63,14 +63,15 @@ Inductive op :=
 | Expire (tid : nat)                      (* the removal timer deletes an unused tree *)
 | PRequestTree (tid : nat) (version : nat)
 | PResponseTree (tm : option tmarshal) (ro : option roster)
-| PTreeMarshal (tm : tmarshal)
+| PTreeMarshal (tm : tmarshal) (pick : nat)        (* pick: which of the live instances' rosters
+                                                      carrying the id the map iteration met last *)
 | PRequestRoster (rid : nat) (nil_first : bool)   (* nil_first: the map iteration met a
                                                       nil entry before a matching tree *)
 | PRoster (ro : roster).
 
 Definition is_peer (o : op) : bool :=
   match o with
-  | PRequestTree _ _ | PResponseTree _ _ | PTreeMarshal _ | PRequestRoster _ _ | PRoster _ => true
+  | PRequestTree _ _ | PResponseTree _ _ | PTreeMarshal _ _ | PRequestRoster _ _ | PRoster _ => true
   | _ => false
   end.
 
@@ -154,21 +155,39 @@ Definition handle_send_tree (fx : fixes) (s : cst) (otm : option tmarshal) (oro 
       end
   end.
 
-(* inst.Roster() of every live instance (a missing tree or roster panics), the
-   LAST one whose id matches is kept *)
-Fixpoint inst_roster (s : cst) (insts : list nat) (rid : nat) (acc : option roster)
-  : res (option roster) :=
+(* inst.Roster() of every live instance (a missing tree or roster panics); the loop
+   keeps the LAST one whose id matches, in the iteration order of a Go map: when several
+   live instances carry different rosters under that id, [pick] says which one was met
+   last (0 = the youngest instance's; out of range = 0) *)
+Fixpoint inst_rosters (s : cst) (insts : list nat) (rid : nat) : res (list roster) :=
   match insts with
-  | [] => Ok acc
+  | [] => Ok []
   | i :: r =>
       match get_tree s i with
       | None => Crash
       | Some t =>
           match t_ro t with
           | None => Crash
-          | Some ro => inst_roster s r rid (if r_id ro =? rid then Some ro else acc)
+          | Some ro =>
+              match inst_rosters s r rid with
+              | Ok l => Ok (if r_id ro =? rid then ro :: l else l)
+              | e => e
+              end
           end
       end
+  end.
+
+Definition pick_roster (l : list roster) (pick : nat) : option roster :=
+  match rev l with
+  | [] => None
+  | r0 :: _ => match nth_error (rev l) pick with Some r => Some r | None => Some r0 end
+  end.
+
+Definition inst_roster (s : cst) (insts : list nat) (rid pick : nat) : res (option roster) :=
+  match inst_rosters s insts rid with
+  | Ok l => Ok (pick_roster l pick)
+  | Err => Err
+  | Crash => Crash
   end.
 
 (* checkPendingTreeMarshal's loop *)
@@ -254,7 +273,7 @@ Definition step (fx : fixes) (s : cst) (o : op) : cst * list out * outcome :=
       end
   | PResponseTree otm oro =>
       let '(s', oc) := handle_send_tree fx s otm oro in (s', [], oc)
-  | PTreeMarshal tm =>
+  | PTreeMarshal tm pick =>
       if tm_tid tm =? 0 then (s, [], Fine) else
       let awaited := match tree_state s (tm_tid tm) with
                      | Absent => false
@@ -262,7 +281,7 @@ Definition step (fx : fixes) (s : cst) (o : op) : cst * list out * outcome :=
                      | Present => negb (fix_n1 fx)
                      end in
       if negb awaited then (s, [], Fine) else
-          match inst_roster s (c_insts s) (tm_rid tm) None with
+          match inst_roster s (c_insts s) (tm_rid tm) pick with
           | Crash | Err => (s, [], Crashed)
           | Ok None =>
               (* RequestRoster is sent first, then addPendingTreeMarshal takes the lock *)
@@ -345,6 +364,8 @@ Arguments get_tree {G}.
 Arguments register_tree {G}.
 Arguments handle_send_tree {G}.
 Arguments inst_roster {G}.
+Arguments inst_rosters {G}.
+Arguments pick_roster {G}.
 Arguments make_pending {G}.
 Arguments step {G}.
 Arguments run {G}.
